@@ -385,8 +385,10 @@ func checkC09(c *Ctx) {
 	c.Rule("C09.R4", "one frame per unreliable message: WriteMsgUDP builds one frame with data = b and dataLength = len(b) and sends it once; Unreliable.receive enqueues the frame's payload once (E1)")
 	c.Rule("C09.R5", "the two ends pick from disjoint id sets: pickTubeID starts at int(m.idParity), steps by 2, stays below 256 before narrowing and returns an id only on the not-present edge of the map of the requested reliability; newMuxer assigns parity 0 iff isServer; Client / Server pass false / true (induction shape + E1)")
 	c.Rule("C09.R6", "payload ownership: the data of a decoded frame is a private copy, never a slice of the muxer's reused read buffer (def-use of frame.data in fromBytes)")
-	c.Decides("keying of the tube tables, atomicity of id allocation, single offer, framing of unreliable messages, parity split, payload ownership")
-	c.NotDecided("late frames of a closed tube reaching a successor with the same id (history-dependent); interleavings")
+	c.Rule("C09.R7", "id quarantine covers the peer's last-ack wait: the multiple of the RTT estimate for which reapTube keeps a closed reliable tube's id reserved is not smaller than the multiple after which enterLastAckState gives up waiting for the final ACK (otherwise the id is handed to a new tube while the peer still maps it to the old one) (sibling constants)")
+	c.Decides("keying of the tube tables, atomicity of id allocation, single offer, framing of unreliable messages, parity split, payload ownership, the quarantine / last-ack multipliers")
+	c.NotDecided("late frames of a closed tube reaching a successor with the same id (history-dependent); interleavings; the two ends' RTT estimates differing")
+	c09R7(c)
 
 	fRel := P.Field("tubes", "Muxer", "reliableTubes")
 	fUnrel := P.Field("tubes", "Muxer", "unreliableTubes")
@@ -948,4 +950,49 @@ func c09R6(c *Ctx) {
 		c.Check(fresh, "C09.R6", FuncName(fn)+"#data-copy", P.InstrPos(ins), "payload copied out of the input", "a decoded frame's payload aliases the decoder's input; the muxer decodes every datagram out of one reused read buffer, so a payload still queued (unread unreliable message, out-of-order reliable fragment) is overwritten by the next datagram, whatever tube that belongs to")
 	})
 	c.Floor("C09.R6", "stores to frame.data in fromBytes", n, 1)
+}
+
+// rttMultiples lists the constants k in timer durations k * <...>.RTT started in fn (incl. its closures' parents only).
+func rttMultiples(fn *ssa.Function, fRTT *types.Var) []int64 {
+	var out []int64
+	eachInstr(fn, func(ins ssa.Instruction) {
+		call, ok := ins.(*ssa.Call)
+		if !ok {
+			return
+		}
+		switch calleeID(call) {
+		case "time.NewTimer", "time.AfterFunc", "time.After", "time.Sleep", "time.NewTicker":
+		default:
+			return
+		}
+		d := strip(call.Call.Args[0])
+		if b, ok := d.(*ssa.BinOp); ok && b.Op == token.MUL {
+			for _, pr := range [][2]ssa.Value{{b.X, b.Y}, {b.Y, b.X}} {
+				if k, isC := constInt(pr[0]); isC && lastField(pr[1]) == fRTT {
+					out = append(out, k)
+				}
+			}
+		} else if lastField(d) == fRTT {
+			out = append(out, 1)
+		}
+	})
+	return out
+}
+
+func c09R7(c *Ctx) {
+	P := c.P
+	fRTT := P.Field("tubes", "sender", "RTT")
+	reap, la := P.Func("tubes", "(*Muxer).reapTube"), P.Func("tubes", "(*Reliable).enterLastAckState")
+	if fRTT == nil || reap == nil || la == nil {
+		c.Undecided("C09.R7", "tubes.(*Muxer).reapTube / (*Reliable).enterLastAckState", "functions or sender.RTT not found")
+		return
+	}
+	kq, kl := rttMultiples(reap, fRTT), rttMultiples(la, fRTT)
+	if len(kq) != 1 || len(kl) != 1 {
+		c.Undecided("C09.R7", "tubes.(*Muxer).reapTube~(*Reliable).enterLastAckState", fmt.Sprintf("expected one RTT-multiple timer in each (quarantine %v, last-ack %v)", kq, kl))
+		return
+	}
+	c.Check(kq[0] >= kl[0], "C09.R7", "tubes.(*Muxer).reapTube~(*Reliable).enterLastAckState", P.Pos(reap.Pos()),
+		fmt.Sprintf("quarantine %d x RTT >= last-ack wait %d x RTT", kq[0], kl[0]),
+		fmt.Sprintf("reapTube releases a closed tube's id after %d x RTT, but the peer may stay in lastAck for %d x RTT: a new tube can get the id while the peer still answers for the old one (its REQ is swallowed, its data acknowledged and discarded, the old FIN ends it)", kq[0], kl[0]))
 }
